@@ -5,7 +5,8 @@
    [H] is any hash function with 32-byte output; [reach H sc S ss]: the session
    state [ss] is reached by trie.New on store [S] (scheme [sc]) followed by ANY
    history of Update / Delete / Get. *)
-From GV Require Import Lib.Tactics Trie.Hex Trie.Node Trie.Ops Trie.Hash Trie.OpsProofs Trie.Commit Trie.CommitProofs Trie.CommitTracer Trie.CommitReads Trie.CommitSim Trie.CommitSimDel Trie.CommitHist Trie.CommitExact.
+From Coq Require Import Permutation.
+From GV Require Import Lib.Tactics Trie.Hex Trie.Node Trie.Ops Trie.Hash Trie.OpsProofs Trie.Commit Trie.CommitProofs Trie.CommitTracer Trie.CommitReads Trie.CommitSim Trie.CommitSimDel Trie.CommitHist Trie.CommitExact Trie.Stack Trie.Generate Trie.GenerateProofs Trie.GenerateNodes Trie.CommitStack.
 Local Open Scope N_scope.
 
 (* the returned root is Trie.Hash() of the in-memory trie; for a short/full root
@@ -93,7 +94,7 @@ Print Assumptions C07_apply_pointwise.
 
 (* commit_reads_back (path scheme) — FULL.
    [reachable H S ss]: the database/session state is reached from the EMPTY
-   database by any number of generations (trie.New, any Update / Delete / Get
+   database by any number of generations (trie.New, any Update / Delete / Get / GetNode
    with byte keys and keys/values shorter than 2^32 bytes, Commit, apply, reopen).
    Committing any reachable session and reopening at the returned root from the
    updated store succeeds, and every byte key reads there exactly the value it
@@ -168,12 +169,53 @@ Theorem C07_commit_exact_path_partial : forall H,
   (forall e, H e = H empty_root_preimage -> e = empty_root_preimage) ->
   forall S ss r ns,
     reachable H S ss -> commit H ss = Some (r, Some ns) ->
-    exists F, store_ok H (apply_nodeset PathScheme ns S) r F /\
+    exists F, sinv H S ss F /\ store_ok H (apply_nodeset PathScheme ns S) r F /\
       forall q b, am_get q (apply_nodeset PathScheme ns S) = Some b ->
         (exists Gq, gsub H true [] F q Gq /\ node_enc H Gq = Some b) \/
         (am_get q ns = None /\ am_get q S = Some b).
 Proof. exact commit_exact_path_partial. Qed.
 Print Assumptions C07_commit_exact_path_partial.
+
+(* commit_exact_path — FULL for a commit into the EMPTY path store (a trie built
+   from scratch by any history of guarded Update/Delete/Get/GetNode): the store
+   after applying the node set holds exactly the canonical node set of the ground
+   trie ([nodes_of H [] F], c11's definition: every node >= 32 bytes and the root,
+   each under its path) — no stale node, none missing, none wrong *)
+Theorem C07_commit_exact_path_fresh : forall H,
+  (forall x, length (H x) = 32%nat) ->
+  (forall e, H e = H empty_root_preimage -> e = empty_root_preimage) ->
+  forall ss r ns,
+    reachable H [] ss -> commit H ss = Some (r, Some ns) ->
+    exists F, sinv H [] ss F /\
+      forall q b, am_get q (apply_nodeset PathScheme ns []) = Some b <-> In (q, b) (nodes_of H [] F).
+Proof. exact commit_exact_path_fresh. Qed.
+Print Assumptions C07_commit_exact_path_fresh.
+
+(* stack-trie clause — FULL in the model: for an ascending equal-length key set the
+   nodes the streaming builder's callback receives (c11's stack-trie model and its
+   builder_emits theorem, reused by import) are, as a set, exactly the nodes a
+   regular trie holding the same content commits into an empty path store *)
+Theorem C07_stack_nodes_eq_commit : forall H,
+  (forall x, length (H x) = 32%nat) ->
+  forall ss r ns F kvs L,
+    sinv H [] ss F -> commit H ss = Some (r, Some ns) ->
+    (1 <= L)%nat ->
+    Forall (fun kv => nibbles (fst kv) /\ length (fst kv) = L /\ snd kv <> []) kvs -> hasc [] kvs ->
+    (forall hk, valid_key hk -> lk F hk = Canon.apply_ops (fun _ => None) (hops kvs) hk) ->
+    exists s em h emf,
+      hfeed H stack_new kvs = Some (s, em) /\ st_root_e H s = TOk (h, emf) /\
+      forall q b, In (q, b) (em ++ emf) <-> am_get q (apply_nodeset PathScheme ns []) = Some b.
+Proof. exact stack_nodes_eq_commit. Qed.
+Print Assumptions C07_stack_nodes_eq_commit.
+
+(* Trie.GetNode (reads through unresolved nodes, recording their pre-values) keeps
+   the session invariant *)
+Theorem C07_getnode_preserves_sinv : forall H,
+  (forall x, length (H x) = 32%nat) ->
+  forall S ss F path g ss',
+    sinv H S ss F -> sess_getnode H PathScheme S ss path = (g, ss') -> sinv H S ss' F.
+Proof. exact sess_getnode_sinv. Qed.
+Print Assumptions C07_getnode_preserves_sinv.
 
 (* the same from the session invariant alone *)
 Theorem C07_commit_reads_back_sinv : forall H,
@@ -237,7 +279,7 @@ Theorem C07_insert_preserves_rep : forall H,
       (forall q, In (TIns q) ev -> dirty' q = true) ->
       exists G', rep H R dirty' delp' f p n' G' /\ (d = false -> G' = G) /\
                  (forall fu', (length key < fu')%nat ->
-                    exists ev', insert R fu' G p key (NValue v) = TOk (d, G', ev')).
+                    exists ev', insert R fu' G p key (NValue v) = TOk (d, G', ev') /\ nores ev' = nores ev).
 Proof. exact insert_rep. Qed.
 Print Assumptions C07_insert_preserves_rep.
 
@@ -250,11 +292,12 @@ Theorem C07_update_value_preserves_rep : forall H,
   forall S ss F key x v ss',
     sinv H S ss F -> forallb byteb key = true ->
     sess_update H PathScheme S ss key (x :: v) = TOk ss' ->
-    exists F' d,
+    exists F' d ev,
+      s_tr ss' = trace_evs (s_tr ss) ev /\
       rep H (resolve_of H PathScheme S) (dirty_at ss') (delp_of (s_tr ss')) true [] (s_root ss') F' /\
       forall fu', (length (keybytes_to_hex key) < fu')%nat ->
         exists ev', insert (resolve_of H PathScheme S) fu' F [] (keybytes_to_hex key) (NValue (x :: v)) =
-                    TOk (d, F', ev').
+                    TOk (d, F', ev') /\ nores ev' = nores ev.
 Proof. exact sess_insert_rep. Qed.
 Print Assumptions C07_update_value_preserves_rep.
 
